@@ -379,6 +379,16 @@ def run_container(chk, tier, seed, desc, owned, flagsets=("",), modes=("plain",)
         if not r.ok or not edges:
             return
         segs, st = vf.tour(edges, maxseg=m.get("maxseg", 400))
+        cap = m.get("max_steps")
+        if cap and st["steps"] > cap:
+            # a model too large to replay in full: a seeded sample of its tour segments (the model itself is still checked exhaustively)
+            order = list(range(len(segs))); rng.shuffle(order)
+            keep, total = [], 0
+            for i in order:
+                if total + len(segs[i]) > cap: continue
+                keep.append(i); total += len(segs[i])
+            segs = [segs[i] for i in sorted(keep)]
+            st = dict(st, replayed_steps=total, replayed_segments=len(segs), sampled=True)
         if m.get("prelude"):
             segs = m["prelude"](segs)
         chk.add_cases(0, distinct_n=st["edges"])
